@@ -19,24 +19,24 @@ type pathEnd struct {
 }
 
 type frame struct {
-	fn     *ssa.Function
-	block  *ssa.BasicBlock
-	prev   *ssa.BasicBlock
-	env    map[ssa.Value]value
-	locals []value
-	defers []func()
-	result value
+	fn          *ssa.Function
+	block       *ssa.BasicBlock
+	prev        *ssa.BasicBlock
+	env         map[ssa.Value]value
+	locals      []value
+	defers      []func()
+	result      value
 	phiOverride map[*ssa.Phi]value
 }
 
 type Engine struct {
-	prog    *ssa.Program
-	globals map[*ssa.Global]*value
-	solver  *Solver
-	fpSolver *Solver
-	initDone map[*ssa.Package]bool
+	prog      *ssa.Program
+	globals   map[*ssa.Global]*value
+	solver    *Solver
+	fpSolver  *Solver
+	initDone  map[*ssa.Package]bool
 	initAllow map[string]bool
-	ext     map[string]func(e *Engine, fr *frame, args []value) value
+	ext       map[string]func(e *Engine, fr *frame, args []value) value
 
 	// per path
 	pc        []*Term
@@ -51,70 +51,77 @@ type Engine struct {
 	covers    map[string]bool
 	knowns    map[string]*Term
 
-	threads   []*thread
-	cur       *thread
+	threads               []*thread
+	cur                   *thread
 	preempts, maxPreempts int
-	aborting  bool
-	endReq    *pathEnd
-	goPanic   interface{}
-	syncVC    map[interface{}]vclock
-	cells     map[interface{}]*cellHist
-	racesSeen map[string]bool
-	curInstr  ssa.Instruction
-	fnInfos   map[*ssa.Function]*fnInfo
-	Merges    int
-	noMerge   bool
-	memYield  bool
-	localCells map[*value]bool
-	skippedInit []string
-	onces     map[*value]bool
-	ws        map[*value]interface{}
-	mutexes   map[*value]*mutexState
-	wgs       map[*value]*wgState
-	chanSeq   int
-	model     map[string]uint64
-	ModelHits int
-	pathFP    bool
-	fpScanned int
-	started   map[*Solver]bool
+	aborting              bool
+	endReq                *pathEnd
+	goPanic               interface{}
+	syncVC                map[interface{}]vclock
+	cells                 map[interface{}]*cellHist
+	racesSeen             map[string]bool
+	curInstr              ssa.Instruction
+	fnInfos               map[*ssa.Function]*fnInfo
+	Merges                int
+	noMerge               bool
+	memYield              bool
+	localCells            map[*value]bool
+	skippedInit           []string
+	onces                 map[*value]bool
+	ws                    map[*value]interface{}
+	mutexes               map[*value]*mutexState
+	wgs                   map[*value]*wgState
+	chanSeq               int
+	model                 map[string]uint64
+	ModelHits             int
+	pathFP                bool
+	fpScanned             int
+	started               map[*Solver]bool
 
 	// stats
-	Paths, Instrs, Forks int
+	Paths, Instrs, Forks  int
 	DonePaths, Nontrivial int
-	ends    map[string]int
-	allCovers map[string]bool
-	maxSteps int
+	ends                  map[string]int
+	allCovers             map[string]bool
+	maxSteps              int
 
-	ctx          *TermCtx
-	params       map[string]int
-	knownIDs     map[string]bool
-	seed         int
-	nondetList   []*nondetInfo
-	nondetByName map[string]*nondetInfo
-	obs          []obsRec
-	findings     []*Finding
-	witnesses    []*Witness
-	witnessQuota int
-	modelMemo    map[*Term]uint64
+	ctx            *TermCtx
+	params         map[string]int
+	knownIDs       map[string]bool
+	seed           int
+	nondetList     []*nondetInfo
+	nondetByName   map[string]*nondetInfo
+	obs            []obsRec
+	findings       []*Finding
+	witnesses      []*Witness
+	witnessQuota   int
+	modelMemo      map[*Term]uint64
 	assertsChecked int
-	finalQueries int
-	crossCheck   func(e *Engine, c *Term, r string)
-	funcsSeen    map[*ssa.Function]bool
-	repoFuncs    map[string]bool
-	engineErrors []string
-	maxThreads   int
-	pinned       map[string]string
-	deadline     time.Time
-	objs         map[interface{}]interface{}
-	clock        int64
-	timers       []*timerObj
-	inClassify   bool
-	choices      []int
-	violCounter  *int64
-	pinMode      bool
-	pinChoices   []int
-	pinModel     map[string]uint64
-	pinMemo      map[*Term]uint64
+	finalQueries   int
+	crossCheck     func(e *Engine, c *Term, r string)
+	funcsSeen      map[*ssa.Function]bool
+	repoFuncs      map[string]bool
+	engineErrors   []string
+	maxThreads     int
+	pinned         map[string]string
+	deadline       time.Time
+	objs           map[interface{}]interface{}
+	clock          int64
+	timers         []*timerObj
+	timerFires     int
+	slept          []*Term
+	inClassify     bool
+	choices        []int
+	initGlobals    map[*ssa.Package]map[*ssa.Global]bool
+	lastPanicWhere string
+	fnMetas        map[*ssa.Function]*fnMeta
+	stubs          map[string]value
+	inStub         map[string]bool
+	violCounter    *int64
+	pinMode        bool
+	pinChoices     []int
+	pinModel       map[string]uint64
+	pinMemo        map[*Term]uint64
 }
 
 func (e *Engine) end(kind, msg string) {
@@ -376,7 +383,21 @@ func (e *Engine) concretize(t *Term, lo, hi int) int {
 	return 0
 }
 
-func (e *Engine) rtPanic(msg string) { e.end("panic", msg) }
+func (e *Engine) rtPanic(msg string) {
+	e.lastPanicWhere = e.whereStr() + " <- " + e.stackStr()
+	e.end("panic", msg)
+}
+
+func (e *Engine) stackStr() string {
+	if e.cur == nil {
+		return ""
+	}
+	var parts []string
+	for i := len(e.cur.stack) - 1; i >= 0 && len(parts) < 8; i-- {
+		parts = append(parts, e.cur.stack[i].String())
+	}
+	return strings.Join(parts, " <- ")
+}
 
 // ---------------------------------------------------------------------------
 
@@ -385,9 +406,39 @@ func (e *Engine) global(g *ssa.Global) *value {
 		return p
 	}
 	p := new(value)
-	*p = zero(g.Type().(*types.Pointer).Elem())
+	if g.Pkg != nil && !e.initDone[g.Pkg] && e.hasInitialiser(g) {
+		// its package initialiser is not on this run's list: a read must not see a silent zero value
+		*p = poisonV{g.Pkg.Pkg.Path() + "." + g.Name()}
+	} else {
+		*p = zero(g.Type().(*types.Pointer).Elem())
+	}
 	e.globals[g] = p
 	return p
+}
+
+// hasInitialiser reports whether the package's synthetic init function mentions g.
+func (e *Engine) hasInitialiser(g *ssa.Global) bool {
+	set, ok := e.initGlobals[g.Pkg]
+	if !ok {
+		set = map[*ssa.Global]bool{}
+		if init := g.Pkg.Func("init"); init != nil {
+			var ops []*ssa.Value
+			for _, b := range init.Blocks {
+				for _, in := range b.Instrs {
+					ops = in.Operands(ops[:0])
+					for _, o := range ops {
+						if o != nil {
+							if gg, ok := (*o).(*ssa.Global); ok {
+								set[gg] = true
+							}
+						}
+					}
+				}
+			}
+		}
+		e.initGlobals[g.Pkg] = set
+	}
+	return set[g]
 }
 
 func (e *Engine) constValue(c *ssa.Const) value {
@@ -439,6 +490,9 @@ func (e *Engine) load(p value) value {
 			e.rtPanic("nil pointer dereference")
 		}
 		e.hbAccess(p, false, e.whereStr())
+		if pv, bad := (*p).(poisonV); bad {
+			e.end("unsupported", "read of package-level variable "+pv.what+" whose initialiser was not run or could not be interpreted")
+		}
 		return copyVal(*p)
 	case *bytePtr:
 		return e.byteLoad(p.arr, p.off, p.idx)
@@ -629,6 +683,8 @@ func (e *Engine) eq(a, b value) *Term {
 	case *ssa.Function:
 		return BoolT(b == a)
 	case *closure:
+		return BoolT(b == a)
+	case *nativeFn:
 		return BoolT(b == a)
 	case *chanV:
 		return BoolT(a == b.(*chanV))
@@ -896,6 +952,8 @@ func (e *Engine) callAny(fr *frame, fv value, args []value, pos token.Pos) value
 		return e.callFnEnv(f.fn, args, f.env)
 	case *boundMethod:
 		return e.callFn(f.fn, append([]value{f.recv}, args...))
+	case *nativeFn:
+		return f.f(e, args)
 	case nil:
 		e.rtPanic("call of nil function")
 	}
@@ -904,12 +962,43 @@ func (e *Engine) callAny(fr *frame, fv value, args []value, pos token.Pos) value
 
 func (e *Engine) callFn(fn *ssa.Function, args []value) value { return e.callFnEnv(fn, args, nil) }
 
-func (e *Engine) callFnEnv(fn *ssa.Function, args []value, env []value) value {
-	name := fn.String()
-	if x, ok := e.ext[name]; ok {
-		return x(e, nil, args)
+// nativeFn is a function value implemented by the engine (e.g. a context.CancelFunc).
+type nativeFn struct {
+	name string
+	f    func(e *Engine, args []value) value
+}
+
+type fnMeta struct {
+	name   string
+	ext    func(e *Engine, fr *frame, args []value) value
+	isInit bool
+}
+
+func (e *Engine) meta(fn *ssa.Function) *fnMeta {
+	if m, ok := e.fnMetas[fn]; ok {
+		return m
 	}
-	if strings.Contains(fn.Name(), "init#") {
+	m := &fnMeta{name: fn.String()}
+	m.ext = e.ext[m.name]
+	m.isInit = strings.Contains(fn.Name(), "init#")
+	e.fnMetas[fn] = m
+	return m
+}
+
+func (e *Engine) callFnEnv(fn *ssa.Function, args []value, env []value) value {
+	m := e.meta(fn)
+	name := m.name
+	if len(e.stubs) > 0 {
+		if sv, ok := e.stubs[name]; ok && !e.inStub[name] {
+			e.inStub[name] = true
+			defer delete(e.inStub, name)
+			return e.callAny(nil, sv, args, 0)
+		}
+	}
+	if m.ext != nil {
+		return m.ext(e, nil, args)
+	}
+	if m.isInit {
 		return nil // declared init functions are not run; var initialisers are
 	}
 	if fn.Blocks == nil {
@@ -926,6 +1015,9 @@ func (e *Engine) callFnEnv(fn *ssa.Function, args []value, env []value) value {
 		e.end("truncated", "call depth")
 	}
 	e.noteFunc(fn)
+	th := e.cur
+	th.stack = append(th.stack, fn)
+	defer func() { th.stack = th.stack[:len(th.stack)-1] }()
 	fr := &frame{fn: fn, env: map[ssa.Value]value{}}
 	for i, p := range fn.Params {
 		fr.env[p] = args[i]
@@ -937,7 +1029,12 @@ func (e *Engine) callFnEnv(fn *ssa.Function, args []value, env []value) value {
 	defer func() {
 		if r := recover(); r != nil {
 			if _, ok := r.(pathEnd); !ok {
-				fmt.Fprintf(os.Stderr, "  in %s block %d\n", fn, func() int { if fr.block != nil { return fr.block.Index }; return -1 }())
+				fmt.Fprintf(os.Stderr, "  in %s block %d\n", fn, func() int {
+					if fr.block != nil {
+						return fr.block.Index
+					}
+					return -1
+				}())
 			}
 			panic(r)
 		}
@@ -958,6 +1055,7 @@ func (e *Engine) runDefers(fr *frame) {
 
 func (e *Engine) runBlock(fr *frame) {
 	b := fr.block
+	isInit := fr.fn.Synthetic != "" && fr.fn.Name() == "init"
 	for _, instr := range b.Instrs {
 		e.curInstr = instr
 		e.steps++
@@ -968,13 +1066,57 @@ func (e *Engine) runBlock(fr *frame) {
 		if e.steps&0xffff == 0 && !e.deadline.IsZero() && time.Now().After(e.deadline) {
 			e.end("truncated", "time limit reached inside a path")
 		}
+		var stop bool
+		if isInit {
+			stop = e.execInit(fr, b, instr)
+		} else {
+			stop = e.exec(fr, b, instr)
+		}
+		if stop {
+			return
+		}
+	}
+	fr.block = nil
+}
+
+// execInit runs one instruction of a package initialiser; an instruction that
+// needs unsupported code is skipped and what it would have defined is poisoned.
+func (e *Engine) execInit(fr *frame, b *ssa.BasicBlock, instr ssa.Instruction) (stop bool) {
+	depth := e.depth
+	defer func() {
+		if r := recover(); r != nil {
+			if pe, ok := r.(pathEnd); ok && pe.kind != "unsupported" && pe.kind != "panic" {
+				panic(r)
+			}
+			e.depth = depth
+			e.skippedInit = append(e.skippedInit, fmt.Sprintf("%s: %v", instr, r))
+			if v, ok := instr.(ssa.Value); ok {
+				fr.env[v] = poisonV{fmt.Sprint(instr)}
+			}
+			if st, ok := instr.(*ssa.Store); ok {
+				if p, ok := fr.env[st.Addr].(*value); ok && p != nil {
+					*p = poisonV{fmt.Sprint(instr)}
+				} else if g, ok := st.Addr.(*ssa.Global); ok {
+					*e.global(g) = poisonV{g.String()}
+				}
+			}
+			stop = false
+		}
+	}()
+	return e.exec(fr, b, instr)
+}
+
+type poisonV struct{ what string }
+
+func (e *Engine) exec(fr *frame, b *ssa.BasicBlock, instr ssa.Instruction) bool {
+	{
 		switch in := instr.(type) {
 		case *ssa.DebugRef:
 		case *ssa.Phi:
 			if fr.phiOverride != nil {
 				if v, ok := fr.phiOverride[in]; ok {
 					fr.env[in] = v
-					continue
+					return false
 				}
 			}
 			for i, p := range b.Preds {
@@ -1010,7 +1152,7 @@ func (e *Engine) runBlock(fr *frame) {
 			if p == nil {
 				e.rtPanic("nil pointer dereference")
 			}
-			s := (*p).(structV)
+			s := e.agg(p).(structV)
 			fr.env[in] = fieldPtr(s, in.Field)
 		case *ssa.Field:
 			fr.env[in] = copyVal(e.get(fr, in.X).(structV)[in.Field])
@@ -1110,11 +1252,7 @@ func (e *Engine) runBlock(fr *frame) {
 			e.spawn(fv, args)
 			e.yield()
 		case *ssa.Call:
-			if fr.fn.Synthetic != "" && fr.fn.Name() == "init" {
-				fr.env[in] = e.initCall(fr, in)
-			} else {
-				fr.env[in] = e.doCall(fr, in.Common())
-			}
+			fr.env[in] = e.doCall(fr, in.Common())
 		case *ssa.Defer:
 			c := in.Common()
 			fv, args := e.prepareCall(fr, c)
@@ -1136,15 +1274,15 @@ func (e *Engine) runBlock(fr *frame) {
 				fr.result = t
 			}
 			fr.block = nil
-			return
+			return true
 		case *ssa.Jump:
 			fr.prev, fr.block = b, b.Succs[0]
-			return
+			return true
 		case *ssa.If:
 			c := e.get(fr, in.Cond).(*Term)
 			if _, isKnown := e.known(c); !isKnown && !e.noMerge {
 				if e.tryMerge(fr, b, c) {
-					return
+					return true
 				}
 			}
 			fr.phiOverride = nil
@@ -1153,12 +1291,12 @@ func (e *Engine) runBlock(fr *frame) {
 			} else {
 				fr.prev, fr.block = b, b.Succs[1]
 			}
-			return
+			return true
 		default:
 			e.end("unsupported", fmt.Sprintf("instr %T in %s", instr, fr.fn))
 		}
 	}
-	fr.block = nil
+	return false
 }
 
 func fieldPtr(s structV, i int) *value { return &s[i] }
@@ -1280,7 +1418,7 @@ func (e *Engine) indexAddr(fr *frame, in *ssa.IndexAddr) value {
 		if xv == nil {
 			e.rtPanic("nil pointer dereference")
 		}
-		arr := (*xv).(arrayV)
+		arr := e.agg(xv).(arrayV)
 		i := e.concretize(idx, 0, len(arr)-1)
 		if i < 0 || i >= len(arr) {
 			e.rtPanic("index out of range")
@@ -1365,7 +1503,7 @@ func (e *Engine) slice(fr *frame, in *ssa.Slice) value {
 		}
 		return &sliceV{arr: xv.arr, off: xv.off + l, len: h - l, cap: xv.cap - l, isNil: xv.isNil && h == 0}
 	case *value: // *array
-		arr := (*xv).(arrayV)
+		arr := e.agg(xv).(arrayV)
 		l, h := 0, len(arr)
 		if lo != nil {
 			l = e.concretize(lo, 0, len(arr))
@@ -1506,7 +1644,7 @@ func (e *Engine) builtin(fr *frame, b *ssa.Builtin, c *ssa.CallCommon, args []va
 		case arrayV:
 			return BV(64, uint64(len(x)))
 		case *value:
-			return BV(64, uint64(len((*x).(arrayV))))
+			return BV(64, uint64(len(e.agg(x).(arrayV))))
 		}
 	case "cap":
 		switch x := args[0].(type) {
@@ -1586,3 +1724,15 @@ func (e *Engine) appendV(c *ssa.CallCommon, args []value) value {
 var _ = math.Abs
 var _ = os.Exit
 var _ = strings.Contains
+
+// agg dereferences a pointer to an aggregate, ending the path if the cell holds
+// the result of an initialiser that was not interpreted.
+func (e *Engine) agg(p *value) value {
+	if p == nil {
+		e.rtPanic("nil pointer dereference")
+	}
+	if pv, bad := (*p).(poisonV); bad {
+		e.end("unsupported", "use of package-level variable "+pv.what+" whose initialiser was not run or could not be interpreted")
+	}
+	return *p
+}
